@@ -3,7 +3,7 @@
    stdout: one line per case   <output sexp>        (or "!ERR <msg>")
 
    entry store_history:
-     input  ((guard B) (factor N) (max_files N) (max_bytes N) (seed faithful|repaired)) (hop...)
+     input  ((guard B) (factor N) (max_files N) (max_bytes N)) (hop...)
        hop = (ingest BYTES (<table>...)) | (flush BG ((xT BSIZE CSIZE)...)) | (evict) | (restart)
            | (observe ((xT (xCOL...))...))
        table = (xT NROWS ((xCOL (cell...))...))      cell = n | (i Z) | (s xHEX) | (f BITS)
@@ -109,7 +109,7 @@ let of_hout (h : hout) : Sx.t =
   | HObs o -> of_obs o
   | HStop (Val _) -> L [A "stop"; A "val"]
   | HStop (Known KF1) -> L [A "stop"; A "known"; A "F1"]
-  | HStop (Known KF3) -> L [A "stop"; A "known"; A "F3"]
+  | HStop (Known KF3) -> L [A "stop"; A "known"; A "colset-incomplete"]
   | HStop (Panic s) -> L [A "stop"; A "panic"; A (of_site s)]
   | HStop Blocked -> L [A "stop"; A "blocked"]
   | HStop NotEnabled -> L [A "stop"; A "not_enabled"]
@@ -118,18 +118,14 @@ let run (entry : string) (inp : Sx.t) : Sx.t =
   match entry, inp with
   | "store_history", L [L c; L hops] ->
       let cfg = { c_factor = to_n (field "factor" c); c_max_wal_files = to_n (field "max_files" c);
-                  c_max_wal_bytes = to_n (field "max_bytes" c);
-                  c_seed = (match field "seed" c with
-                            | A "faithful" -> s_column_names
-                            | A "repaired" -> s_column_name
-                            | _ -> raise (Conv "seed")) } in
+                  c_max_wal_bytes = to_n (field "max_bytes" c) } in
       let guard = to_bool (field "guard" c) in
       L (List.map of_hout (run_h guard cfg (List.map to_hop hops) (init cfg)))
   | "store_effects", L [L c; L hops] ->
       (* the primitive effects of every operation of the history, grouped and sorted within the
          groups whose internal order the code leaves to its thread pools *)
       let cfg = { c_factor = to_n (field "factor" c); c_max_wal_files = to_n (field "max_files" c);
-                  c_max_wal_bytes = to_n (field "max_bytes" c); c_seed = s_column_names } in
+                  c_max_wal_bytes = to_n (field "max_bytes" c) } in
       let ops = List.filter_map (fun h -> match to_hop h with HOp o -> Some o | HObserve _ -> None) hops in
       let zs n = Z.to_string (z_of_n n) in
       let of_eff = function
@@ -139,7 +135,8 @@ let run (entry : string) (inp : Sx.t) : Sx.t =
         | EPartStore (n, id, _) -> (3, L [A "store"; of_name n; A (zs id)])
         | EMetaStore (k, _) -> (4, L [A "meta"; A (zs k)])
         | EPartRemove (n, id) -> (5, L [A "rmpart"; of_name n; A (zs id)])
-        | EWalRemove id -> (6, L [A "rmwal"; A (zs id)]) in
+        | EWalTmpRemove -> (6, L [A "waltmp-remove"])
+        | EWalRemove id -> (7, L [A "rmwal"; A (zs id)]) in
       let canon es =
         let tagged = List.map of_eff es in
         let sorted = List.stable_sort (fun (g1, x1) (g2, x2) ->
